@@ -7,6 +7,8 @@
 (*   content [raised, entries]   decode_p1_readout_content(text)                                          *)
 (*   readout [raised, entries]   decode_p1_readout(DataReadout(ident + text + "!"))                       *)
 (*   auto    [raised, entries]   AutoDecoder().decode_message_payload(text)                               *)
+(*   autoh   [raised, entries]   decode_message_payload(text) of an AutoDecoder with a history of P1 messages *)
+(*   automsg [raised, entries]   decode_message(DataReadout) of that same AutoDecoder (ident # <<>>)      *)
 (*   entry = [name, nametext, k, neg, int, frac, t, dt]                                                   *)
 EXTENDS P1Decode, Ident, Json, IOUtils
 Eol(t) == IF t.eol = "crlf" THEN <<13, 10>> ELSE <<10>>
@@ -36,10 +38,12 @@ Verdict(t) ==
      ELSE IF t.content.raised # "" THEN bad("C11.decode_raised")
      ELSE IF ~DictOk(exp, t.content.entries) THEN bad("C11.decode")
      ELSE IF t.auto.raised # "" \/ AsSet(t.auto.entries) # AsSet(t.content.entries) THEN bad("C11.autodecoder_path")
+     ELSE IF t.autoh.raised # "" \/ AsSet(t.autoh.entries) # AsSet(t.content.entries) THEN bad("C11.autodecoder_history_path")
      ELSE IF t.ident = <<>> THEN [id |-> t.id, ok |-> TRUE, clause |-> ""]
      ELSE IF t.readout.raised # "" THEN bad("C11.readout_raised")
      ELSE IF AsSet(rest) # AsSet(t.content.entries) THEN bad("C11.readout_path")
      ELSE IF {[name |-> x.name, t |-> x.t] : x \in AsSet(idf)} # wantId \/ \E x \in AsSet(idf) : x.k # "text" THEN bad("C11.ident_fields")
+     ELSE IF t.automsg.raised # "" \/ AsSet(t.automsg.entries) # AsSet(t.readout.entries) THEN bad("C11.autodecoder_message_path")
      ELSE [id |-> t.id, ok |-> TRUE, clause |-> ""]
 Traces == ndJsonDeserialize(IOEnv.TRACE_FILE)
 ASSUME JsonSerialize(IOEnv.OUT_FILE, [i \in 1..Len(Traces) |-> Verdict(Traces[i])])
